@@ -96,6 +96,7 @@ func H_C04_Unknowing(v *sym.V) {
 	// received the error (one knowing hop): from the first hop on, re-encoding by a
 	// knowing process is a fixpoint (C01), so every difference seen below is due to
 	// the types the intermediary does not know.
+	orig := e
 	e = wire.Hop(e)
 	enc := wire.Copy(wire.Encode(e))
 	n := wire.Count(enc)
@@ -114,7 +115,7 @@ func H_C04_Unknowing(v *sym.V) {
 	renamed := wire.Copy(enc)
 	wire.Rename(renamed, mask, "~u")
 	u := wire.Decode(renamed)
-	compareTrees(v, "unknowing", b, e, u)
+	compareTrees(v, "unknowing", b, orig, u) // same text and shape as at the origin
 	safeDetailsKept(v, b.Kinds[0].String(), enc, u, mask)
 	re := wire.Copy(wire.Encode(u))
 	v.Assert("reencode@"+b.Kinds[0].String(), wire.Equal(re, renamed))
